@@ -29,7 +29,8 @@ CONSTANTS MaxFrames,       \* size of the frame table
           Dev_PruneWithoutReap,        \* D4: manage_processes drops dead workers without reaping them
           Dev_AfterSpawnKillDetached,  \* D3: after_spawn false: kill not awaited, pid dropped at once
           Dev_BuiltinIgnoreList,       \* D11: before_signal/after_signal/..stop raise counts as true
-          Dev_AddEmptyNameReturns      \* D9: add_watcher returns (not raises) ValueError for an empty name
+          Dev_AddEmptyNameReturns,     \* D9: add_watcher returns (not raises) ValueError for an empty name
+          Dev_QuitRefusedWhenBusy      \* D6: a termination signal that meets a busy slot is refused and dropped
 
 SIGKILL == 9
 SIGTERM == 15
@@ -801,7 +802,8 @@ P_req(s, f) ==
 \* ====================== the step relation =====================
 P_exit(s, f) ==          \* Arbiter.stop_controller_and_close_sockets
   LET fr == s.fr[f] IN
-  CASE fr.pc = "0" -> Emit(Goto([s EXCEPT !.exited = TRUE, !.pnext = -1], f, "1"), Line("close", "", 0, 0, "", "ctrl"))
+  CASE fr.pc = "0" -> IF s.exited THEN Ret(s, f, 1)       \* (a second quit finds everything closed already)
+                      ELSE Emit(Goto([s EXCEPT !.exited = TRUE, !.pnext = -1], f, "1"), Line("close", "", 0, 0, "", "ctrl"))
     [] fr.pc = "1" -> Emit(Goto(s, f, "2"), Line("close", "", 0, 0, "", "router"))
     [] fr.pc = "2" -> Emit(Ret(s, f, 1), Line("close", "", 0, 0, "", "pub"))
 
@@ -897,7 +899,11 @@ RunCb(s) ==
              s1 == Free(s0, {cb.f}) IN
          IF failed THEN s1
          ELSE [Reply(s1, cb.cid, cb.mid, "ok", 0) EXCEPT !.lastobs = ObsCore(s1)]
-    [] cb.kind = "dsig" ->    \* controller.dispatch((None, make_json("quit")))
+    [] cb.kind = "dsig" ->    \* SysHandler: controller.dispatch((None, make_json("quit")))
+         IF ~Dev_QuitRefusedWhenBusy /\ s0.slot # "" /\ ~s0.stopping
+         THEN \* repaired: an operation is in flight, try again in 0.1 s (timer that re-queues this callback: f = -1)
+              [s0 EXCEPT !.tm = @ \cup {[f |-> -1, due |-> s0.now + 1]}]
+         ELSE
          [s0 EXCEPT !.creq = QuitReq,
                     !.fr[Min(FreeIds(s0))] = [NoFrame EXCEPT !.fn = "req", !.pc = "0", !.nm = ""],
                     !.cur = <<Min(FreeIds(s0))>>]
@@ -927,6 +933,7 @@ Fork(s, p, ob) ==
 DueTimers(s) == { t \in s.tm : t.due <= s.now }
 \* a due timer fires (any of the due ones): its frame resumes
 FireTimer(s, t) == IF t.f = 0 THEN [Fresh(s) EXCEPT !.tm = @ \ {t}]
+                   ELSE IF t.f = -1 THEN Enq([Fresh(s) EXCEPT !.tm = @ \ {t}], [kind |-> "dsig", f |-> 0, cid |-> "", mid |-> ""])
                    ELSE [Fresh(s) EXCEPT !.tm = @ \ {t}, !.cur = <<t.f>>]
 FirePeriodic(s) ==
   LET id == Min(FreeIds(s)) IN
